@@ -325,6 +325,8 @@ impl Repr {
 
     #[inline]
     pub(crate) fn pop(&mut self) -> Result<Option<char>, ReserveError> {
+        #[cfg(feature = "verif-hooks")]
+        crate::verif_hooks::note_read(self.as_bytes().as_ptr(), self.len());
         let ch = match self.as_str().chars().next_back() {
             Some(ch) => ch,
             None => return Ok(None),
@@ -343,6 +345,8 @@ impl Repr {
 
     #[inline]
     pub(crate) fn remove(&mut self, idx: usize) -> Result<char, ReserveError> {
+        #[cfg(feature = "verif-hooks")]
+        crate::verif_hooks::note_read(self.as_bytes().as_ptr(), self.len());
         assert!(
             self.as_str().is_char_boundary(idx),
             "index is not a char boundary or out of bounds (index: {idx})",
@@ -434,6 +438,8 @@ impl Repr {
 
     #[inline]
     pub(crate) fn insert_str(&mut self, idx: usize, string: &str) -> Result<(), ReserveError> {
+        #[cfg(feature = "verif-hooks")]
+        crate::verif_hooks::note_read(self.as_bytes().as_ptr(), self.len());
         assert!(
             self.as_str().is_char_boundary(idx),
             "index is not a char boundary or out of bounds (index: {idx})",
@@ -473,6 +479,8 @@ impl Repr {
         }
 
         let str = self.as_str();
+        #[cfg(feature = "verif-hooks")]
+        crate::verif_hooks::note_read(str.as_ptr(), str.len());
         assert!(
             str.is_char_boundary(new_len),
             "index is not a char boundary or out of bounds (index: {new_len})",
